@@ -7,6 +7,7 @@
 package vhttp
 
 import (
+	"time"
 	"bytes"
 	"context"
 	"errors"
@@ -172,6 +173,15 @@ func (n *Network) gate(t *vsched.Thread) {
 	}
 }
 
+// ActiveConns counts accepted connections whose handler has not returned yet (all servers).
+func (n *Network) ActiveConns() int {
+	k := 0
+	for _, s := range n.servers {
+		k += len(s.active)
+	}
+	return k
+}
+
 // Bound reports whether an address is currently bound (what a fresh net.Listen would trip over).
 func (n *Network) Bound(addr string) bool { _, ok := n.bound[addr]; return ok }
 
@@ -215,6 +225,11 @@ func (n *Network) unbind(l *listener, why string) {
 type Server struct {
 	Addr    string
 	Handler http.Handler
+	// Deadlines of net/http.Server. Time is not modelled: a deadline that is set MAY pass
+	// before the response has been flushed (an explored choice), in which case the
+	// connection is dropped after the handler returned (and after the metrics were updated).
+	ReadTimeout, ReadHeaderTimeout, WriteTimeout, IdleTimeout time.Duration
+	MaxHeaderBytes                                             int
 
 	inShutdown    bool
 	listeners     map[*listener]bool
@@ -318,6 +333,11 @@ func (srv *Server) serve(c *Conn) {
 			}
 		} else if c.State == "active" {
 			c.State = "complete"
+			if srv.WriteTimeout > 0 || srv.ReadTimeout > 0 {
+				if vsched.Choose(2, "write-deadline-passes") == 1 {
+					c.State = "aborted" // the flush fails: the client sees a closed connection
+				}
+			}
 		}
 		delete(srv.active, c)
 		srv.completed++
